@@ -13,6 +13,10 @@ def run(tier, seed):
     c.outside = ['nesting depth beyond 2 (quick) / 3 (thorough): the statement quantifies over any depth -- this is a bounded claim', 'programs outside the composed family; the construct-level properties C04..C20 carry the per-construct depth']
     c.assumptions.append('the reference semantics (ref/front.py, ref/sem.py) is an executable reading of docs/features.md and the property statements; where these are silent it answers "unspecified" and the case is skipped (counted as oracle_silent)')
     c.run_family('compose', ts, ('exit', 'stdout', 'stderr-empty', 'panic', 'hang'), compose.role, par_templates=8, par_paths=2)
+    from families import crossfeature
+    xs = crossfeature.templates(tier, seed)
+    c.bounds['cross_feature'] = '%d programs picked from the construct families (calls / this, scopes, control, heap, objects, destructuring, sequences, equality, rendering, diagnostics)' % len(xs)
+    c.run_family('cross-feature', xs, ('exit', 'stdout', 'stderr-empty', 'panic', 'hang'), crossfeature.role, par_templates=8, par_paths=2)
     rs = randprog.templates(tier, seed)
     for t in rs: t['max_dec'] = 7
     c.bounds['random_programs'] = '%d generated programs of 8-20 statements over the whole feature set (kind-tracking grammar, VERIF_SEED), integer / boolean leaves symbolic' % len(rs)
